@@ -2,7 +2,8 @@ import OdlModel.Common
 import OdlModel.Model.CRat
 import OdlModel.Model.Lincomb
 import OdlModel.Gen.LincombTree
-open OdlModel OdlModel.Lincomb
+import OdlModel.Model.ElemOps
+open OdlModel OdlModel.Lincomb OdlModel.ElemOps
 
 /-- `lincomb size=N blas=0|1 x1=ID x2=ID out=ID a=C b=C n=LEN m0=… m1=… m2=…`
 answers `ok m0=… m1=… m2=…` (all three buffers after the call). -/
@@ -61,10 +62,89 @@ def doElem (l : Line) : Option String := do
     | _ => none
   some s!"ok r={showCList r}"
 
+def tensorLC (size : Nat) (blas : Bool) : LC CRat := fun A a b m =>
+  lincombImpl Gen.Lincomb.thrSmall Gen.Lincomb.thrMedium Gen.Lincomb.fbGuard
+    Gen.Lincomb.prog size blas A a b m
+
+def memOf (bufs : List (List CRat)) : Mem CRat :=
+  let arrs := bufs.toArray.map (·.toArray)
+  fun b i => (arrs.getD b #[]).getD i 0
+
+def parseOp : String → Option Op
+  | "addE" => some .addE | "subE" => some .subE | "mulE" => some .mulE | "divE" => some .divE
+  | "addS" => some .addS | "subS" => some .subS | "rsubS" => some .rsubS | "mulS" => some .mulS
+  | "divS" => some .divS | "rdivS" => some .rdivS
+  | "iaddE" => some .iaddE | "isubE" => some .isubE | "imulE" => some .imulE
+  | "idivE" => some .idivE | "iaddS" => some .iaddS | "isubS" => some .isubS
+  | "imulS" => some .imulS | "idivS" => some .idivS
+  | "neg" => some .neg | "pos" => some .pos | "setZero" => some .setZero
+  | "assign" => some .assign
+  | _ => none
+
+/-- `elemop op=<Op> alias=0|1 c=C n=LEN x=… y=…` : run the statement-level model of the
+operator (self = buffer 0, other = buffer 1 or 0 when aliased, fresh temp = buffer 2 filled
+with junk 77) and answer `ok r=<id> res=… x=… y=…`. Division by an exact zero is `err:div0`. -/
+def doElemOp (l : Line) : Option String := do
+  let op ← l.get? "op" >>= parseOp
+  let alias ← l.bool? "alias"
+  let c := (l.crat? "c").getD 0
+  let n ← l.nat? "n"
+  let x ← l.crats? "x"
+  let y := (l.crats? "y").getD []
+  let junk : List CRat := List.replicate n ⟨77, 0⟩
+  let m := memOf [x, y, junk]
+  let yi := if alias then 0 else 1
+  let divisorZero : Bool :=
+    match op with
+    | .divE | .idivE => ((List.range n).any fun i => m yi i = 0)
+    | .rdivS => ((List.range n).any fun i => m 0 i = 0)
+    | .divS | .idivS => c = 0
+    | _ => false
+  if divisorZero then some "err:div0" else
+  match op.exec (tensorLC n false) 0 yi 2 c m with
+  | none => some "err:depth"
+  | some (m', r) =>
+    let dump (b : Nat) := showCList ((List.range n).map (m' b))
+    some s!"ok r={r} res={dump r} x={dump 0} y={dump yi}"
+
+/-- `ipow p=P n=LEN x=…` : the generic `__ipow__` recursion for a natural exponent. -/
+def doIpow (l : Line) : Option String := do
+  let p ← l.nat? "p"
+  let n ← l.nat? "n"
+  let x ← l.crats? "x"
+  let m := memOf [x, List.replicate n ⟨77, 0⟩]
+  match ipow (tensorLC n false) 0 1 p m with
+  | none => some "err:depth"
+  | some m' => some s!"ok x={showCList ((List.range n).map (m' 0))}"
+
+/-- `plincomb a=C b=C xs=ids ys=ids os=ids sizes=… bufs=b0|b1|…` : product-space lincomb over
+leaf parts; buffer contents separated by `|`. Answers all buffers afterwards. -/
+def doPLincomb (l : Line) : Option String := do
+  let a ← l.crat? "a"
+  let b ← l.crat? "b"
+  let xs ← l.nats? "xs"
+  let ys ← l.nats? "ys"
+  let os ← l.nats? "os"
+  let raw ← l.get? "bufs"
+  let bufs ← (raw.splitOn "|").mapM parseCList
+  let m := memOf bufs
+  -- each part uses its own size for the regime; the model's result is regime independent,
+  -- so the driver uses the part length of the first buffer of the triple
+  let lc : LC CRat := fun A a b m => tensorLC ((bufs.getD A.out []).length) false A a b m
+  match plincomb lc xs ys os a b m with
+  | none => some "err:shape"
+  | some m' =>
+    let outs := (List.range bufs.length).map fun k =>
+      showCList ((List.range ((bufs.getD k []).length)).map (m' k))
+    some ("ok bufs=" ++ "|".intercalate outs)
+
 def handle (l : Line) : Option String :=
   match l.op with
   | "lincomb" => doLincomb l
   | "elem" => doElem l
+  | "elemop" => doElemOp l
+  | "ipow" => doIpow l
+  | "plincomb" => doPLincomb l
   | _ => none
 
 def main : IO Unit := driverLoop handle
